@@ -31,6 +31,8 @@ def showBody : Body → String
   | .map k kty vty ents => (match k with | .table => "h" | .tree => "m") ++ kty.name ++ "," ++ vty.name ++ "{" ++
       capped (ents.map (fun e => showScalar e.1.val ++ ":" ++ showScalar e.2.val)) ++ "}"
   | .ref t => s!"r{t}"
+  | .box none => "b-"
+  | .box (some t) => s!"b{t}"
   | .tyobj t _ => "T" ++ t.name
   | .destroyed => "!destroyed"
 
@@ -137,6 +139,11 @@ def parseOp (ws : List String) : Option Op :=
     match id.toNat?, parseRoute r, t.toNat? with
     | some id, some r, some t => some (.make id r (.ref t))
     | _, _, _ => none
+  | ["box", id, r, t] =>
+    match id.toNat?, parseRoute r with
+    | some id, some r =>
+      if t == "-" then some (.make id r (.box none)) else t.toNat?.map (fun t => .make id r (.box (some t)))
+    | _, _ => none
   | kind :: id :: r :: ety :: vals =>
     if kind == "arr" || kind == "lst" then
       match id.toNat?, parseRoute r, parseElemTy ety with
@@ -179,8 +186,22 @@ def parseView (ws : List String) : Option View :=
   | ["hrange", a, b, c] => (match a.toInt?, b.toInt?, c.toInt? with | some a, some b, some c => some (.rangeHeap a b c) | _, _, _ => none)
   | _ => none
 
+/-- `<ids> ; <ids>` (the second list and the `;` are optional) -/
+def parseTwoLists (ws : List String) : Option (List Nat × List Nat) :=
+  let a := ws.takeWhile (· != ";")
+  let b := (ws.dropWhile (· != ";")).drop 1
+  match allSome (a.map String.toNat?), allSome (b.map String.toNat?) with
+  | some a, some b => some (a, b)
+  | _, _ => none
+
 def parseLine (ws : List String) : Option Op :=
   match ws with
+  | ["own", id, t] =>
+    (match id.toNat? with
+     | some id => if t == "-" then some (.own id none) else t.toNat?.map (fun t => .own id (some t))
+     | none => none)
+  | "thr" :: rest => (parseTwoLists rest).map (fun p => .thr p.1 p.2)
+  | "exit" :: rest => (parseTwoLists rest).bind (fun p => if p.1.isEmpty then some (.exit p.2) else none)
   | ["sty", id, name] => id.toNat?.map (fun id => .static id name)
   | ["cpy", id, src] => (match id.toNat?, src.toNat? with | some id, some src => some (.copy id src) | _, _ => none)
   | ["obs", t] => (parseTarget t).map .obs
@@ -201,7 +222,7 @@ def parseLine (ws : List String) : Option Op :=
      | none => none)
   | ["values", id] => id.toNat?.map .values
   | "view" :: rest => (parseView rest).map .view
-  | "sweep" :: ids => (allSome (ids.map String.toNat?)).map .sweep
+  | "sweep" :: rest => (parseTwoLists rest).map (fun p => .sweep p.1 p.2)
   | ["end"] => some .finish
   | [f, t] => (match parseFreeOp f, parseTarget t with | some f, some t => some (.free f t) | _, _ => none)
   | _ => parseOp ws
@@ -227,6 +248,8 @@ def kfLine (name : String) : String :=
     s!"kf del-silent exc={showOutcome out} v={showScalar e1.val}"
   else "bad-op"
 
+def showIds (l : List Nat) : String := if l.isEmpty then "-" else ",".intercalate (l.map toString)
+
 def main (args : List String) : IO Unit := do
   let lines ← Driver.inputLines args
   let mut s : St := St.init
@@ -242,6 +265,7 @@ def main (args : List String) : IO Unit := do
     | none => IO.println "O bad-op"
     | some op =>
       nOps := nOps + 1
+      let nFreed := s.freed.length
       let (s1, obs) := step cfg s op
       s := s1
       match obs with
@@ -253,9 +277,12 @@ def main (args : List String) : IO Unit := do
         match out with
         | .raised _ => nRefused := nRefused + 1
         | _ => pure ()
-        IO.println s!"O {name} exc={showOutcome out} {describe s t}"
+        IO.println s!"O {name} exc={showOutcome out} {describe s t} rel={showIds (s.freed.drop nFreed)}"
       | .items l => IO.println ("O " ++ showItems l)
-      | .swept ids => IO.println ("O sweep freed=" ++ (if ids.isEmpty then "-" else ",".intercalate (ids.map toString)))
+      | .swept how ids out =>
+        -- the teardown is observed in a forked child: when it does not complete, its ledger is lost
+        let shown := if how == "exit" && out != .ok then "*" else showIds ids
+        IO.println s!"O {how} exc={showOutcome out} freed={shown}"
       | .fin =>
         let liveHeap := (s.objs.filter (fun p => p.2.live && p.2.hdr.alloc == cfg.cHeap)).length
         IO.println s!"O end released={s.freed.length} live={liveHeap} registered={s.reg.length}"
